@@ -4,6 +4,10 @@ import json, os
 HERE = os.path.dirname(os.path.dirname(os.path.abspath(__file__)))
 
 CHECKS = {
+ 'C14': dict(level='fault_enumeration', ref='3/C14',
+   technique='simulated storage behind gin\'s reader/search-path seam (in-memory VFS readers + real scratch dir + real package dirs) with missing-file / open-failure / existence-check-failure injected at every include position, heal-and-reparse, and a resolution model + flattened-text twin world as oracle',
+   text='For each sampled world (file DAG with repeated/diamond includes, ordered locations x readers with each file present in a drawn subset of cells under distinct tagged content) the fault-free parse, the multi-file entry point and one fault scenario per include position and per file are executed; the store must equal the parse of the model-flattened text, the returned tree the model tree, unreadable names an IOError naming file and locations with exactly the preceding statements applied, and a re-parse after healing must succeed. Exhaustive over fault positions per world; worlds are sampled.',
+   note='POSIX paths; package reader exercised with real package directories in a scratch tree on sys.path (plain directories are never expected to be served by it); import targets are virtual modules.'),
  'C12': dict(level='fault_enumeration', ref='3/C12',
    technique='seeded operation histories over the lock state machine with exhaustive raise/no-raise enumeration of the fault sites (unlock bodies, hooks) per history; executable model of lock flag + store checked after every operation',
    text='For each sampled history (finalize / nested unlock_config / bind / parse / register / clear / hooks of 9 kinds / configs that finalize must reject) all 2^k assignments of injected exceptions to the k fault sites are executed when k<=4 (16 sampled otherwise); the model of the flag and the store is compared after every operation and rejected operations must leave a bit-identical store. Enumeration is exhaustive per history, histories are sampled.',
